@@ -1434,8 +1434,8 @@ func (l *lexer) scanParamExpInBraces() bool {
 		// special parameter
 		l.b.WriteByte(byte(r))
 	default:
-		// XBD Name
-		for l.isNameRune(r) {
+		// XBD Name, or a positional parameter (digits only)
+		for digit := '0' <= r && r <= '9'; l.isNameRune(r) && (!digit || '0' <= r && r <= '9'); {
 			l.b.WriteRune(r)
 			if r, err = l.read(); err != nil {
 				goto Error
@@ -1453,6 +1453,10 @@ func (l *lexer) scanParamExpInBraces() bool {
 	}
 	l.b.Reset()
 	l.mark(0)
+	if pe.Op == "#" {
+		// string length: no other operator may follow
+		goto Rbrace
+	}
 	// op
 	if r, err = l.read(); err != nil {
 		goto Error
